@@ -65,6 +65,7 @@ func (n *zzNode) menuBlock(m *zzMenuTx, a1Signed bool) *zzBlockOut {
 	e := n.app.EndBlock(abcitypes.RequestEndBlock{Height: n.height})
 	out.ups = e.ValidatorUpdates
 	out.hash = n.app.Commit().Data
+	n.outs = append(n.outs, out)
 	return out
 }
 
@@ -87,6 +88,7 @@ func (n *zzNode) menuBlock2(m1, m2 *zzMenuTx, a1Signed bool) *zzBlockOut {
 	e := n.app.EndBlock(abcitypes.RequestEndBlock{Height: n.height})
 	out.ups = e.ValidatorUpdates
 	out.hash = n.app.Commit().Data
+	n.outs = append(n.outs, out)
 	return out
 }
 
@@ -116,7 +118,34 @@ func ZZ_C07_R1() {
 	// governance parameters rebuilt by the constructors equal the running node's
 	pa, pb := a.app.govCtrler.GetGovParams(), b.app.govCtrler.GetGovParams()
 	ctrlertypes.ZZGovParamsAssertEq(&pa, &pb, "R1 governance parameters after restart")
+	// the validator set the consensus engine holds = genesis set with every block's
+	// updates applied; it is the same for both replicas up to the restart
+	cumA := map[string]int64{}
+	for i := 0; i < 2; i++ {
+		cumA[string(zzPub(i))] = a.genesisPower(i)
+	}
+	for _, o := range a.outs {
+		zzApplyUps(cumA, o.ups)
+	}
+	cumB := map[string]int64{}
+	for k, v := range cumA {
+		cumB[k] = v
+	}
 	oa4, ob4 := a.menuBlock(m4, a1Signed), b.menuBlock(m4, a1Signed)
+	zzApplyUps(cumA, oa4.ups)
+	zzApplyUps(cumB, ob4.ups)
+	removal := false
+	for _, u := range oa4.ups {
+		if u.Power == 0 {
+			removal = true
+		}
+	}
+	// C10 across a restart: whatever the restarted node announces, applied to the set
+	// the engine already has, must give the set the running node arrives at (the
+	// known finding C07-K1 covers the case of a removal in the first block)
+	zzverif.Known("C07-K1", removal)
+	zzSameValSet(cumA, cumB, "R1 block h+1: validator set after applying the updates")
+	zzverif.Known("C07-K1", false)
 	// known finding C07-K1: lastValidators is not rebuilt on start, so the first
 	// block after a restart re-announces the whole validator set
 	zzverif.Known("C07-K1", true)
@@ -126,5 +155,61 @@ func ZZ_C07_R1() {
 	zzSameOut(oa4, ob4, "R1 block h+1")
 	oa5, ob5 := a.menuBlock(nil, a1Signed), b.menuBlock(nil, a1Signed)
 	zzSameOut(oa5, ob5, "R1 block h+2")
+	zzApplyUps(cumA, oa5.ups)
+	zzApplyUps(cumB, ob5.ups)
+	zzverif.Known("C07-K1", removal)
+	zzSameValSet(cumA, cumB, "R1 block h+2: validator set after applying the updates")
+	zzverif.Known("C07-K1", false)
 	zzverif.Reach("R1 end")
+}
+
+func zzApplyUps(set map[string]int64, ups []abcitypes.ValidatorUpdate) {
+	for _, u := range ups {
+		k := string(u.PubKey.GetSecp256K1())
+		if u.Power == 0 {
+			delete(set, k)
+		} else {
+			set[k] = u.Power
+		}
+	}
+}
+
+func zzSameValSet(a, b map[string]int64, tag string) {
+	zzverif.Assert(len(a) == len(b), tag+": same members")
+	for i := 0; i < 3; i++ {
+		k := string(zzPub(i))
+		pa, oka := a[k]
+		pb, okb := b[k]
+		zzverif.Assert(oka == okb, tag+": same members")
+		if oka && okb {
+			zzverif.Assert(pa == pb, tag+": same power")
+		}
+	}
+}
+
+// ZZ_C07_R2: a restart around the periodic reward-hash checkpoint (every 10th
+// ledger version): one validator signs every block (rewards are issued, the
+// reward ledger changes), the node is restarted after block 9, 10, 11 or 12.
+func ZZ_C07_R2() {
+	govp := ctrlertypes.Test1GovParams()
+	a := zzNewGenesisBanded(3, 1, govp).start()
+	h := int64(9 + zzverif.Choose("restart.height", 4))
+	a.emptyBlock(0) // block 1 carries no commit info
+	a.emptyBlock(0)
+	var last *zzBlockOut
+	for a.height < h {
+		last = a.menuBlock(nil, true)
+	}
+	b := &zzNode{dir: zzverif.CopyDir(a.dir), gov: govp, nvals: 1, height: a.height}
+	b.app = zzOpenApp(b.dir)
+	info := b.app.Info(abcitypes.RequestInfo{})
+	zzverif.Assert(info.LastBlockHeight == a.height, "R2 restarted node reports the height of the last commit")
+	zzverif.Assert(zzverif.SameBytes(info.LastBlockAppHash, last.hash), "R2 restarted node reports the application hash of the last commit")
+	for k := 0; k < 2; k++ {
+		oa, ob := a.menuBlock(nil, true), b.menuBlock(nil, true)
+		oa.ups, ob.ups = nil, nil // validator updates right after a restart: C07-K1, asserted in R1
+		zzSameOut(oa, ob, "R2 block after a restart near a reward-hash checkpoint")
+	}
+	zzverif.Event("R2", h)
+	zzverif.Reach("R2 end")
 }
